@@ -36,7 +36,7 @@ Inductive case :=
     the spec-side reader gives the model's structured declarations ([ReadBack]) *)
 Definition agree (c : case) : bool :=
   match c with
-  | CDoc _ doc sruns rruns =>
+  | CDoc checked doc sruns rruns =>
       forallb (fun r => res_eqb (print_schema (fst r) doc) (snd r)) sruns
       && (* the reader against the model, on the first configuration of each schema *)
          (match sruns with
@@ -45,7 +45,9 @@ Definition agree (c : case) : bool :=
           end)
       && forallb (fun r => res_eqb (print_resolvers (fst (fst r)) (snd (fst r)) doc) (snd r)
                            && (match snd (fst r) with
-                               | O => negb (nodup_keys (map tname (typedefs doc)) && no_keyword_type_names doc) || readback_resolvers_ok (fst (fst r)) doc
+                               | O => (* checked: every referenced type is defined, so no reference is spelled like a keyword either *)
+                                      negb (checked && nodup_keys (map tname (typedefs doc)) && no_keyword_type_names doc)
+                                      || readback_resolvers_ok (fst (fst r)) doc
                                | _ => true
                                end)) rruns
   | CJsdoc items => forallb (fun i => wops_eqb (print_description (fst i)) (snd i)) items
